@@ -21,7 +21,8 @@ TRUSTED_BASE = BASE_TRUSTED + [
 RULE = ('kernel cases: seeded inputs cycling through the 24 cells (object finite/infinite x field type x telecentric x aperture '
         'type) x polarization, Hy in [-1,1], pupil points in the unit disk, vignetting in [0,0.5], EPL of both signs; every '
         'named distribution for counts 0..40 (rings 0..8). system: seeded lenses of 1-12 surfaces forced into each cell '
-        '(valid or not), shuffled field lists with vignetting, curved object surfaces, object-space index != 1; '
+        '(valid or not; six rejection rules), shuffled field lists with vignetting, curved object surfaces, object-space index != 1; '
+        'the prescriptions of the three repaired findings replayed on every run; '
         'non-trivial = a launched ray with finite record in a distinct (lens, ray)')
 PARTIAL = [
     'uniform sampling: the count is proved equal to the number of grid nodes with x^2+y^2 <= 1 (no closed form is claimed)',
@@ -242,6 +243,9 @@ def system_checks(ctx):
     # (d) create_distribution: unknown names rejected, counts as documented (on the implementation itself)
     yield _count_check(ctx)
 
+    # (e) the three repaired defects must stay repaired
+    yield _regression_check(ctx)
+
 
 def _trace_check(ctx):
     import random, warnings
@@ -434,27 +438,9 @@ def search(ctx, broken, disagreements):
 # ---------------------------------------------------------------------------------------------
 # 5. known findings
 # ---------------------------------------------------------------------------------------------
-def _kinds(w):
-    return {b.get('kind') for b in (w.get('oracle') or []) if isinstance(b, dict)}
-
-
 def matches_finding(w, f):
-    kinds = _kinds(w)
-    if not kinds or 'spec' not in w:
-        return False
-    spec = w['spec']
-    if f['id'] == 'infinite-object-launched-backwards':
-        # only: infinite object, every complaint is the reversed launch (entrance pupil left of the launch plane)
-        if not math.isinf(spec['object_thickness']) or kinds != {'launched-backwards'}:
-            return False
-        return all(b['EPL'] < b['launch_z'] for b in w['oracle'])
-    if f['id'] == 'telecentric-na-ignores-object-index':
-        if not spec.get('telecentric') or kinds != {'telecentric-numerical-aperture'}:
-            return False
-        return all(abs(b.get('object_index', 1.0) - 1.0) > 1e-9 for b in w['oracle'])
-    if f['id'] == 'objectNA-infinite-object-not-rejected':
-        return (math.isinf(spec['object_thickness']) and spec['aperture'][0] == 'objectNA'
-                and kinds == {'objectNA-infinite-object-not-rejected'})
+    """no open finding is listed for C03 (the three found on 2026-09-30 are repaired in /repo: 45f857e, 70bd414,
+    105641c); any witness therefore alarms"""
     return False
 
 
@@ -482,23 +468,36 @@ NA_INF_REPLAY = {
     'wavelengths': [[0.55, True]], 'telecentric': False}
 
 
-def replay_finding(ctx, f):
+REGRESSION_CASES = [
+    ('infinite-object-launched-backwards', BACKWARDS_REPLAY, (0.0, 1.0, 0.0, 0.5, 0.55)),
+    ('telecentric-na-ignores-object-index', TELE_NA_REPLAY, (0.0, 1.0, 0.0, 1.0, 0.55)),
+    ('objectNA-infinite-object-not-rejected', NA_INF_REPLAY, (0.0, 1.0, 0.0, 0.5, 0.55)),
+]
+
+
+def _regression_check(ctx):
+    """the prescriptions of the three repaired findings, replayed on the implementation on every run"""
     import warnings
     import c03lib
     warnings.simplefilter('ignore')
-    if f['id'] == 'infinite-object-launched-backwards':
-        spec, ray = BACKWARDS_REPLAY, (0.0, 1.0, 0.0, 0.5, 0.55)
-    elif f['id'] == 'telecentric-na-ignores-object-index':
-        spec, ray = TELE_NA_REPLAY, (0.0, 1.0, 0.0, 1.0, 0.55)
-    elif f['id'] == 'objectNA-infinite-object-not-rejected':
-        spec, ray = NA_INF_REPLAY, (0.0, 1.0, 0.0, 0.5, 0.55)
-    else:
-        return None
-    o = c03lib.build(spec)
-    r = c03lib.impl_launch(o, *ray)
-    bad = c03lib.check_launch(o, spec, ray, r)
-    w = {'spec': spec, 'oracle': bad}
-    return bool(bad) and matches_finding(w, f)
+    res = {'name': 'former-findings-regression', 'n': 0, 'nontrivial': 0, 'histogram': {}, 'samples': [], 'disagreements': []}
+    for fid, spec, ray in REGRESSION_CASES:
+        o = c03lib.build(spec)
+        for via in ('generate', 'generic'):
+            r = c03lib.impl_launch(o, *ray, via)
+            eff = ray if via == 'generate' or r[0] != 'ok' else _generic_pupil(o, ray)
+            bad = c03lib.check_launch(o, spec, eff, r)
+            res['n'] += 1
+            res['nontrivial'] += 1
+            res['histogram'][fid] = 'raises ' + r[1] if r[0] != 'ok' else 'launched'
+            if bad:
+                res['disagreements'].append({'spec': spec, 'ray': list(ray), 'via': via, 'implementation': list(r),
+                                             'regression_of': fid, 'oracle': bad[:4], 'violates_property': True})
+    return res
+
+
+def replay_finding(ctx, f):
+    return None
 
 
 def broken_explained(b, known, witnesses):
